@@ -74,15 +74,27 @@ def run_one(prop, repo, job, workdir, idx, timeout):
         err = e.stderr or ''
         if isinstance(err, bytes):
             err = err.decode('utf-8', 'replace')
-        return {'failed': 'timeout', 'stderr': err[-3000:],
-                'wall_s': time.time() - t0, 'shard': job['shard']}
+        return _failed('timeout', err, t0, job, out_file)
     if cp.returncode != 0 or not os.path.exists(out_file):
-        return {'failed': f'exit {cp.returncode}',
-                'stderr': (cp.stderr or '')[-3000:],
-                'wall_s': time.time() - t0, 'shard': job['shard']}
+        return _failed(f'exit {cp.returncode}', cp.stderr or '', t0, job,
+                       out_file)
     with open(out_file) as f:
         res = json.load(f)
     res['stderr_tail'] = (cp.stderr or '')[-600:]
+    return res
+
+
+def _failed(why, stderr, t0, job, out_file):
+    """A worker that hung or died: keep what it had observed so far."""
+    res = {'failed': why, 'stderr': stderr[-3000:],
+           'wall_s': time.time() - t0, 'shard': job['shard']}
+    partial = out_file + '.partial'
+    if os.path.exists(partial):
+        try:
+            with open(partial) as f:
+                res['partial'] = json.load(f)
+        except (OSError, ValueError):
+            pass
     return res
 
 
@@ -97,7 +109,9 @@ def aggregate(results):
     for r in results:
         if r.get('failed'):
             agg['failures'].append(r)
-            continue
+            r = r.get('partial')
+            if not r:
+                continue
         agg['evaluations'] += r['evaluations']
         agg['nontrivial'].update(r['nontrivial'])
         agg['hist'].update(r['hist'])
